@@ -28,7 +28,7 @@ CLAIMS = {
     'C10': ('ground-truth monitor on generated stylesheets (rules, ;-terminated declarations, decoys) at every position',
             'Held on every position of every generated stylesheet except the recorded findings.'),
     'C11': ('consistency monitor on extract() fields for all lines/positions + round-trip oracle (embedded valid abbreviation must come back) on two separated domains',
-            'Consistency held exhaustively up to the bound; round trip held on domain D1; D2 failures only of the recorded heuristic mechanisms.'),
+            'Consistency held exhaustively up to the bound; round trip held on domain D1; D2 failures only of the two heuristic mechanisms still recorded as open.'),
     'C12': ('metamorphic monitor: same abbreviation under two formatting option sets must give equal tag/attribute/text streams; depth-indent rule per output line',
             'Held on all generated (abbreviation, option set) pairs for the 6 HTML-formatter syntaxes.'),
     'C13': ('offline trace checker over the log of output.field/output.text callback invocations (offset/line/column vs final result) + tabstop numbering oracle; probe on OutputStream state',
@@ -50,6 +50,21 @@ CLAIMS = {
 }
 
 
+HOSTILE_IDS = {'C01', 'C02', 'C03', 'C04', 'C05', 'C06', 'C07', 'C12', 'C13', 'C14', 'C15'}
+HOSTILE = ('; monitored calls are made in a hostile calling context (vmon/hostile.py: failing calls, raising callbacks, injected faults at function entries, '
+           'kept Config objects tuned in place, poisoned caches between them; calls from inside callbacks of a running expand(); Config-object entry; argument forms)')
+KEPT = {'C09': '; result objects read again later (retained oracle), calls from inside scan callbacks, one options dictionary kept across documents, markupsafe-like / str-subclass documents',
+        'C10': '; result objects read again later (retained oracle), calls from inside scan callbacks, markupsafe-like / str-subclass documents',
+        'C17': '; result objects read again later (retained oracle), one options dictionary kept across documents, markupsafe-like / str-subclass documents',
+        'C18': '; the caller edits an earlier result and asks again; str-subclass inputs',
+        'C08': '; equal dictionaries with their keys in the opposite order',
+        'C20': '; layers must leave no trace for calls that do not carry them; the call config digested before / after with the other top-level keys riding along',
+        'C11': '; str-subclass lines, options as other Mapping types', 'C19': '; str-subclass expressions, options as other Mapping types',
+        'C16': '; near-miss runs inside every construct the scanners read'}
+COMMON = ('; shards run under varied process state (hash seed, -O, -W error); every monitored call under a CPU-time budget '
+          '(a call that burns it is a termination violation, not a watchdog expiry)')
+
+
 def main():
     checks = []
     na = []
@@ -68,7 +83,7 @@ def main():
                 'level_note': 'Trusted: CPython 3.12.1, sys.monitoring, the reference model / output parser / generator bookkeeping '
                               'of this property (cross-validated on the unchanged tree). Decides only the executions it produced: '
                               'held on K monitored executions, never verified.',
-                'technique': 'runtime monitoring: ' + tech,
+                'technique': 'runtime monitoring: ' + tech + (HOSTILE if pid in HOSTILE_IDS else '') + (KEPT.get(pid, '')) + COMMON,
             })
         else:
             na.append({'property_id': pid, 'reason': 'check not built yet (work in progress; a runtime monitor is designed in DESIGN.md section 2)'})
@@ -85,7 +100,7 @@ def main():
         },
         'engines': [{'name': 'vmon', 'path': 'vmon/', 'serves_properties': [c['property_id'] for c in checks],
                      'kind_free_text': 'runtime monitoring framework: boundary recorders + reference-model/ground-truth/metamorphic oracles, '
-                                       'sys.monitoring probes, state census, fault injection; shards in subprocesses'}],
+                                       'sys.monitoring probes, state census, fault injection, hostile calling context, process-state variation, CPU budget per call; shards in subprocesses'}],
         'checks': checks,
         'notes': 'All checks run the real code of /repo\'s working tree (PYTHONPATH=/repo, asserted in every worker). '
                  'Exit 0 held / 1 violated / 2 inconclusive. Known findings: known_findings.json.',
